@@ -10,6 +10,7 @@ from engine.env import NoTracing, build_cells, sym_doc
 sys.path.insert(0, os.path.join(env.VERIF, "vendor"))
 from markdown_it import MarkdownIt  # noqa: E402
 
+from checks.html_refdev import reference_deviates  # noqa: E402
 from pymarkdown.transform_gfm.transform_to_gfm import TransformToGfm  # noqa: E402
 
 _MD = MarkdownIt("commonmark")
@@ -19,6 +20,8 @@ _TOK = None
 def norm(html):
     """insignificant whitespace between block tags; one trailing newline"""
     html = html.replace(">\n<", "><")
+    while " \n" in html:  # spaces before a line ending inside text are insignificant
+        html = html.replace(" \n", "\n")
     if html.endswith("\n"):
         html = html[:-1]
     return html
@@ -30,8 +33,8 @@ def norm(html):
 # CommonMark version says)
 # and minus pymarkdown's reserved in-band characters (their loss is C02's known finding).
 DOMAIN_RANGES = [(9, 10), (32, 126)]
-DOMAIN_SINGLES = [0xE9, 0x3B1, 0x1F600]
-DOMAIN_TEXT = "U+0009, U+000A, U+0020-U+007E, U+00E9, U+03B1, U+1F600"
+DOMAIN_SINGLES = [0xE9, 0x3B1, 0x4E2D]
+DOMAIN_TEXT = "U+0009, U+000A, U+0020-U+007E, U+00E9, U+03B1, U+4E2D"
 
 
 def in_domain(c):
@@ -41,6 +44,38 @@ def in_domain(c):
     for x in DOMAIN_SINGLES:
         if c == x:
             return True
+    return False
+
+
+def closing_fence_then_tab(d):
+    """some line is a run of >= 3 backticks/tildes (after <= 3 spaces) followed by blanks that
+    include a TAB"""
+    start = 0
+    n = len(d)
+    while start <= n:
+        end = start
+        while end < n and not (d[end] == "\n"):
+            end += 1
+        line = d[start:end]
+        if "\t" in line:
+            i = 0
+            while i < len(line) and i < 3 and line[i] == " ":
+                i += 1
+            if i < len(line) and (line[i] == "`" or line[i] == "~"):
+                f = line[i]
+                j = i
+                while j < len(line) and line[j] == f:
+                    j += 1
+                if j - i >= 3:
+                    rest = line[j:]
+                    only_blank = True
+                    for ch in rest:
+                        if not (ch == " " or ch == "\t"):
+                            only_blank = False
+                            break
+                    if only_blank and len(rest) > 0:
+                        return True
+        start = end + 1
     return False
 
 
@@ -67,7 +102,12 @@ class HtmlHarness:
         d = sym_doc(build_cells(self.skeleton, self.holes, cells))
         toks = _TOK.transform(d, show_debug=False)
         g = TransformToGfm().transform(toks)
-        m = _MD.render(d)
+        if reference_deviates(d):
+            return SKIP  # reference-side deviation from the specification (checks/html_refdev.py)
+        if closing_fence_then_tab(d):
+            return SKIP  # CommonMark 0.29 and 0.31 disagree (0.29: only spaces may follow a closing fence)
+        # a final line ending is optional (spec 2.1): the reference gets one
+        m = _MD.render(d if (len(d) > 0 and d[len(d) - 1] == "\n") else d + "\n")
         return (d, g, m)
 
     def judge(self, obs, v):
